@@ -63,6 +63,7 @@ pub fn all() -> Vec<Scenario> {
         Scenario { name: "unsubscribe_from_drop_of_handler_capture", props: &["C04", "C10", "C12"], run: unsubscribe_from_drop_of_handler_capture },
         Scenario { name: "guard_cancels_sibling_subscription_on_drop", props: &["C04", "C10", "C09"], run: guard_cancels_sibling_subscription_on_drop },
         Scenario { name: "unsubscribe_guard_outlives_state", props: &["C12", "C04", "C10"], run: unsubscribe_guard_outlives_state },
+        Scenario { name: "write_from_drop_of_dead_variable_value", props: &["C08", "C04"], run: write_from_drop_of_dead_variable_value },
         Scenario { name: "state_unsubscribe_before_first_stabilise", props: &["C09", "C10"], run: state_unsubscribe_before_first_stabilise },
     ]
 }
@@ -1438,5 +1439,46 @@ fn unsubscribe_guard_outlives_state() -> Result<(), String> {
             }
         }
     }
+    Ok(())
+}
+
+
+/// A variable's value writes another variable when it is dropped; the variable dies, so its value
+/// is dropped by the dead-variable teardown at the end of a stabilise, after the round's deferred
+/// writes had been committed (defect #29, pointed out by a seeding agent): the write was parked on
+/// the already drained stack and only committed at the end of the *next* stabilise, with
+/// `is_stable()` true in between.
+fn write_from_drop_of_dead_variable_value() -> Result<(), String> {
+    #[derive(Debug, Clone)]
+    struct Guard(Rc<RefCell<Option<Var<i64>>>>);
+    impl PartialEq for Guard {
+        fn eq(&self, _: &Self) -> bool {
+            true
+        }
+    }
+    impl Drop for Guard {
+        fn drop(&mut self) {
+            if let Some(c) = &*self.0.borrow() {
+                c.update(|x| x + 1);
+            }
+        }
+    }
+    let st = IncrState::new();
+    let counter = st.var(0i64);
+    let oc = counter.observe();
+    let cell = Rc::new(RefCell::new(Some(counter.clone())));
+    let g = st.var(Guard(cell.clone()));
+    st.stabilise();
+    drop(g); // last handle: the variable is torn down at the end of the next stabilise
+    st.stabilise();
+    check!(counter.get() == 1, "after the stabilise that dropped the value, counter.get() = {} (the write made by its Drop is still parked)", counter.get());
+    check!(!st.is_stable(), "is_stable() although a write to an observed variable is waiting to be propagated");
+    let mut rounds = 0;
+    while !st.is_stable() && rounds < 5 {
+        st.stabilise();
+        rounds += 1;
+    }
+    check!(oc.try_get_value() == Ok(1) && counter.get() == 1, "after stabilising until stable: observer {:?}, get {}", oc.try_get_value(), counter.get());
+    cell.borrow_mut().take();
     Ok(())
 }
